@@ -58,6 +58,29 @@ CALLS = [
 ]
 
 
+DICTIONARY = [
+    '<CIM', '<MESSAGE', '<SIMPLERSP>', '<IMETHODRESPONSE', '<METHODRESPONSE',
+    '<IRETURNVALUE>', '<RETURNVALUE', '<ERROR', 'CODE="', 'DESCRIPTION="',
+    '<INSTANCE', '<INSTANCENAME', '<INSTANCEPATH>', '<LOCALINSTANCEPATH>',
+    '<NAMESPACEPATH>', '<LOCALNAMESPACEPATH>', '<NAMESPACE', '<HOST>',
+    '<KEYBINDING', '<KEYVALUE', 'VALUETYPE="', '<VALUE>', '</VALUE>',
+    '<VALUE.ARRAY>', '<VALUE.NULL/>', '<VALUE.REFERENCE>', '<VALUE.REFARRAY>',
+    '<VALUE.NAMEDINSTANCE>', '<VALUE.INSTANCEWITHPATH>',
+    '<VALUE.OBJECTWITHPATH>', '<VALUE.OBJECTWITHLOCALPATH>', '<VALUE.OBJECT>',
+    '<CLASS', '<CLASSNAME', '<CLASSPATH>', '<LOCALCLASSPATH>', '<PROPERTY',
+    '<PROPERTY.ARRAY', '<PROPERTY.REFERENCE', '<METHOD', '<PARAMETER',
+    '<PARAMETER.ARRAY', '<PARAMETER.REFERENCE', '<PARAMETER.REFARRAY',
+    '<QUALIFIER', '<QUALIFIER.DECLARATION', '<SCOPE', '<PARAMVALUE',
+    'PARAMTYPE="', 'TYPE="', 'NAME="', 'ARRAYSIZE="', 'ISARRAY="',
+    'EmbeddedObject="', 'EMBEDDEDOBJECT="', 'instance', 'object',
+    'EnumerationContext', 'EndOfSequence', 'TRUE', 'FALSE', 'INF', '-INF',
+    'NaN', 'uint8', 'sint64', 'real32', 'datetime', 'char16', 'reference',
+    'string', 'boolean', '&#', '&lt;', '<![CDATA[', ']]>', '<!--', '<?xml',
+    'encoding="', '<!DOCTYPE', '<!ENTITY',
+    '20240229123015.000000+060', '00000001000000.000000:000',
+]
+
+
 def example_from_bytes(data):
     "fuzz input -> C02 example"
     sel = data[0] if data else 0
